@@ -584,7 +584,8 @@ class _Run:
         items = _constant_items(it)
         if items is not None and 1 <= len(items) <= 12 and not s.orelse and not any(
                 isinstance(n, (ast.Break, ast.Continue)) for b in s.body for n in ast.walk(b)) and \
-                any(tag(x) in ('tuple', 'list') for x in items):
+                (any(tag(x) in ('tuple', 'list', 'record', 'dict') for x in items) or
+                 any(isinstance(n, ast.Return) for b in s.body for n in ast.walk(b))):
             # a short table of constant records: one pass of the body per record (table-driven code reads like the
             # if-chain it replaces)
             for item in items:
@@ -1023,40 +1024,19 @@ class _Run:
                 return ('bound', base, m.qname)
             ca = self.p.find_class_attr(k, name)
             if ca is not None:
-                try:
-                    ast.literal_eval(ca[1])
-                    if isinstance(ca[1], (ast.Dict, ast.Tuple, ast.List)):
-                        # a class-level table of constants (writes to class attributes are a C13 finding of their own)
-                        return self.ev(ca[1], State({}))
-                except (ValueError, TypeError, SyntaxError, MemoryError, RecursionError):
-                    pass
+                from sa import consts
+                cv = consts.class_value(self.p, ca[0], name, record_fields=_record_fields)
+                if cv is not None:
+                    # a class-level constant / table of constants (writes to class attributes are a C13 finding of their own)
+                    return cv
                 return ('g', f'{ca[0].qname}.{name}')
         return T.mk_attr(base, name)
 
     def _scalar_constant(self, q: str):
-        """A module-level name bound exactly once, to a number / string / bool literal, is that literal (writes to
+        """A module-level name bound exactly once to a constant expression is that value (sa/consts.py; writes to
         module-level names from functions are findings of their own, C09-R6 / C13-R1)."""
-        modq, _, nm = q.rpartition('.')
-        mod = self.p.modules.get(modq)
-        if mod is None or nm in mod.functions or nm in mod.classes:
-            return None
-        nodes = mod.globals.get(nm, [])
-        if len(nodes) != 1:
-            return None
-        n = nodes[0]
-        if isinstance(n, ast.UnaryOp) and isinstance(n.op, ast.USub) and isinstance(n.operand, ast.Constant) \
-                and isinstance(n.operand.value, (int, float)):
-            return C(-n.operand.value)
-        if isinstance(n, ast.Constant) and isinstance(n.value, (int, float, str, bool)) and not nm.startswith('__'):
-            return C(n.value)
-        if isinstance(n, ast.Tuple):
-            # an immutable table of constants (tuple of literals / of literal records)
-            try:
-                ast.literal_eval(n)
-            except (ValueError, TypeError, SyntaxError, MemoryError, RecursionError):
-                return None
-            return self.ev(n, State({}))
-        return None
+        from sa import consts
+        return consts.global_value(self.p, q, record_fields=_record_fields)
 
     def _is_data_global(self, q: str) -> bool:
         """Is q a module-level *variable* of the package holding data (dict / list / call result other
@@ -1177,6 +1157,16 @@ class _Run:
         return t
 
     def _comp(self, e, st, kind, elts):
+        if kind in ('list', 'gen') and len(e.generators) == 1 and not e.generators[0].ifs and len(elts) == 1:
+            items = _constant_items(self.ev(e.generators[0].iter, st))
+            if items is not None and 1 <= len(items) <= 8:
+                # a comprehension over a short constant sequence is the literal list of its elements
+                out = []
+                for item in items:
+                    inner = st.fork()
+                    self.assign(e.generators[0].target, item, inner, e)
+                    out.append(self.ev(elts[0], inner))
+                return ('list', tuple(out))
         inner = st.fork()
         gens = []
         self.cvdepth += 1
@@ -1301,6 +1291,21 @@ class _Run:
                 return C(len(a0[1]))
             if tag(a0) == 'phi' and len(a0[1]) <= 8 and T.has_const_alternative(a0):
                 return T.mk_phi([(g, self.call(fn, (v,), (), node, st)) for g, v in a0[1]])
+        if tg == 'g' and fn[1] in _OPERATOR_CMP and len(args) == 2 and not kws:
+            return T.mk_cmp(_OPERATOR_CMP[fn[1]], args[0], args[1])          # operator.lt(a, b) is a < b
+        if tg == 'g' and fn[1] in _OPERATOR_BIN and len(args) == 2 and not kws:
+            return T.mk_bin(_OPERATOR_BIN[fn[1]], args[0], args[1])
+        if tg == 'g' and fn[1] in ('operator.not_', '_operator.not_') and len(args) == 1 and not kws:
+            return T.mk_not(_truth(args[0]))
+        if tg == 'g' and fn[1] in ('operator.contains', '_operator.contains') and len(args) == 2 and not kws:
+            return T.mk_cmp('in', args[1], args[0])
+        if tg == 'g' and fn[1] in ('operator.getitem', '_operator.getitem') and len(args) == 2 and not kws:
+            return T.mk_sub(args[0], args[1])
+        if tg == 'g' and fn[1] in ('builtins.any', 'builtins.all') and len(args) == 1 and not kws and \
+                tag(args[0]) in ('tuple', 'list') and len(args[0][1]) <= 8 and all(T.boolish(x) for x in args[0][1]):
+            # any((c1, c2, c3)) over a literal sequence of conditions is their disjunction
+            parts = [_truth(x) for x in args[0][1]]
+            return T.mk_or(parts) if fn[1].endswith('any') else T.mk_and(parts)
         if tg == 'g' and fn[1] == 'builtins.bool' and len(args) == 1 and not kws and T.boolish(args[0]):
             return args[0]              # bool() of a condition is that condition
         if tg == 'g' and fn[1] == 'numpy.logical_not' and len(args) == 1 and not kws:
@@ -1534,6 +1539,15 @@ class _Run:
 _BINOP = {ast.Add: '+', ast.Sub: '-', ast.Mult: '*', ast.Div: '/', ast.FloorDiv: '//',
           ast.Mod: '%', ast.Pow: '**', ast.BitAnd: '&', ast.BitOr: '|', ast.BitXor: '^',
           ast.LShift: '<<', ast.RShift: '>>', ast.MatMult: '@'}
+_OPERATOR_CMP = {}
+for _m in ('operator', '_operator'):
+    _OPERATOR_CMP.update({f'{_m}.lt': '<', f'{_m}.le': '<=', f'{_m}.gt': '>', f'{_m}.ge': '>=', f'{_m}.eq': '==',
+                          f'{_m}.ne': '!=', f'{_m}.is_': 'is', f'{_m}.is_not': 'isnot'})
+_OPERATOR_BIN = {}
+for _m in ('operator', '_operator'):
+    _OPERATOR_BIN.update({f'{_m}.add': '+', f'{_m}.sub': '-', f'{_m}.mul': '*', f'{_m}.truediv': '/',
+                          f'{_m}.floordiv': '//', f'{_m}.mod': '%', f'{_m}.pow': '**', f'{_m}.and_': '&',
+                          f'{_m}.or_': '|', f'{_m}.xor': '^'})
 _CMPOP = {ast.Lt: '<', ast.Gt: '>', ast.LtE: '<=', ast.GtE: '>=', ast.Eq: '==', ast.NotEq: '!=',
           ast.Is: 'is', ast.IsNot: 'isnot', ast.In: 'in', ast.NotIn: 'notin'}
 
@@ -1642,11 +1656,33 @@ def _subst_cv(t, mapping, d):
 
 
 def _constant_items(it):
-    """The elements of a literal tuple / list of constants (or of constant tuples), else None."""
+    """The elements of a literal tuple / list of constants (or of constant tuples / records; also enumerate() / zip() of
+    such sequences), else None."""
     def const(x):
-        return T.is_const(x) or (tag(x) in ('tuple', 'list') and all(const(y) for y in x[1]))
+        return T.is_const(x) or tag(x) == 'g' or (tag(x) in ('tuple', 'list') and all(const(y) for y in x[1])) or \
+            (tag(x) == 'record' and all(const(v) for _, v in x[2])) or \
+            (tag(x) == 'dict' and all(const(k) and const(v) for k, v in x[1]))
     if tag(it) in ('tuple', 'list') and all(const(x) for x in it[1]):
         return list(it[1])
+    if tag(it) == 'call' and it[1] == ('g', 'builtins.enumerate') and it[2] and len(it[2]) <= 2:
+        inner = _constant_items(it[2][0])
+        start = 0
+        if len(it[2]) == 2 or it[3]:
+            sv = it[2][1] if len(it[2]) == 2 else dict(it[3]).get('start')
+            if sv is None or not (T.is_const(sv) and isinstance(sv[1], int)):
+                return None
+            start = sv[1]
+        if inner is not None:
+            return [('tuple', (C(i + start), x)) for i, x in enumerate(inner)]
+    if tag(it) == 'call' and it[1] == ('g', 'builtins.zip') and len(it[2]) >= 2 and not it[3]:
+        cols = [_constant_items(a) for a in it[2]]
+        if all(c is not None for c in cols):
+            return [('tuple', tuple(r)) for r in zip(*cols)]
+    if tag(it) == 'mcall' and it[2] in ('items', 'keys', 'values') and not it[3] and not it[4] and tag(it[1]) == 'dict' \
+            and all(const(k) and const(v) for k, v in it[1][1]):
+        if it[2] == 'items':
+            return [('tuple', (k, v)) for k, v in it[1][1]]
+        return [k if it[2] == 'keys' else v for k, v in it[1][1]]
     return None
 
 
